@@ -70,6 +70,7 @@ func (v Val) String() string {
 // ---------------- SMT context ----------------
 
 type Ctx struct {
+	qdepth int // nesting depth of spec quantifiers (names of bound variables)
 	decls    []string
 	declared map[string]string // name -> sort
 	asserts  []assertion
